@@ -1492,7 +1492,10 @@ def check_C04(ctx):
     pool4 = value_pool(ctx, n)
     pool = [(f, d, c) for f, d, c, _ in pool4]
     go = [g for _, _, _, g in pool4]
-    mops = [f"msearch\t{f}\t{d}\t0" for f, d, _ in pool]
+    # the reference search carries a budget of oracle consultations (about one per searched move): a tree the
+    # full-evaluation reference cannot afford ends as ` | budget` and only its completed iterations are compared
+    rbudget = 300000 if ctx.quick else 3000000
+    mops = [f"msearch\t{f}\t{d}\t0\t{rbudget}" for f, d, _ in pool]
     ref = run_batch(MDRV, mops, shards=infra.NCPU, timeout_per_op=300.0)
     ctx.co["co_value"] = len(mops)
     admitted = 0
@@ -1505,6 +1508,9 @@ def check_C04(ctx):
                 ctx.violation(f"value-crash:{f}:{d}", {"kind": "input", "fen": f, "depth": d, "what": "search crashed (engine or model)", "engine": (g or "")[:300], "model": (r or "")[:300],
                                                       "lines": [f"position {f}", f"go depth {d}"]})
             continue
+        if ri and "score" not in ri[-1]:
+            ri = ri[:-1]
+            ctx.bump("reference_budget_exceeded")
         for a, b in zip(gi, ri):
             if a.get("score") != b.get("score"):
                 if int(a.get("wrong", "0")) > 0:
@@ -1517,7 +1523,7 @@ def check_C04(ctx):
             if a.get("score") == b.get("score") and abs(int(a.get("score"))) > 90000:
                 ctx.bump("mate_valued")
         if len(ctx.samples) < 3:
-            ctx.sample({"fen": f, "depth": d, "engine": gi[min(d, len(gi)) - 1], "reference": ri[-1]})
+            ctx.sample({"fen": f, "depth": d, "engine": gi[min(d, len(gi)) - 1], "reference": ri[-1] if ri else "budget"})
     ctx.notes.append(f"lazy-sensitive trees admitted: {admitted}")
     iteration_sequence_check(ctx, pool)
 
